@@ -18,6 +18,7 @@ func init() { Registry["C13"] = C13 }
 
 func C13(c *Ctx) {
 	r := c.R
+	defer c13Fifo(c)
 	const pkg = "pkg/ha"
 	r.Explain = "Structural clauses of 'the standby converges to the active's table': the stream handler dispatches every declared message type and, for every well-formed message, reaches the per-session loop and applies add/update with PutSession and delete with DeleteSession (path-sensitive dataflow: no decoded change is dropped before it is applied); a full synchronisation reconciles the store with the snapshot (sessions absent from it are deleted); changes are applied synchronously in read order (no goroutine or channel hand-off on the standby) and the active stamps a sequence number before enqueueing into a single-consumer queue; a standby whose queue overflows is disconnected, not silently skipped; stream clients are registered under a key that is unique per connection.  The gap between full sync and stream attach, TCP/HTTP behaviour and all schedules are not decided."
 	r.Rule("C13.S1.dispatch", "handleSSEData tests every declared SyncType constant; every well-formed message reaches the dispatch and, for add/update/delete/full, the per-session loop; add/update apply PutSession, delete applies DeleteSession, each with the message's own session", 8)
